@@ -113,6 +113,12 @@ var commands = map[string]hlib.Handler{
 		o1["eq"] = o2
 		return o1
 	},
+	// {"value": tree, "body": "statements over 甲 (the value) and 乙 (declared as a copy of it)", "which": "甲"|"乙"}:
+	// the dictionary after a history — copied, one of the two changed — handed to 生成JSON
+	"hist": func(in map[string]interface{}) map[string]interface{} {
+		src := "导入《@JSON》\n输入甲\n令乙 = 甲\n" + in["body"].(string) + "\n输出（生成JSON：" + in["which"].(string) + "）" + catchTail
+		return runProgram(src, r.ElementMap{"甲": build(in["value"])})
+	},
 	"api": func(in map[string]interface{}) map[string]interface{} {
 		args := []r.Element{}
 		for _, a := range in["args"].([]interface{}) {
